@@ -112,6 +112,9 @@ pub fn next_solution_or<'a>(sn: Rc<RefCell<SolutionNode<'a>>>)
         Some(_) => { return solution; },
     }
 
+    // A cut in the first alternative discards the remaining alternatives.
+    if sn_ref.no_backtracking { return None; }
+
     match &sn_ref.operator_tail {
         None => { return None; },
         Some(tail) => {
